@@ -216,19 +216,35 @@ func TestDrv_C17(t *testing.T) {
 		}
 		atks := make([]plotAtk, na)
 		r.Shuffle(len(names), func(i, j int) { names[i], names[j] = names[j], names[i] })
-		if p%6 == 1 || p%6 == 4 { // a name that a careless page would let close its script element
-			hostile := []string{"a</script><b>x", "x<!--<script>"}[p%2]
+		force := func(at int, name string) {
 			for i := range names {
-				if names[i] == hostile {
-					names[i] = names[0] // (keep the names distinct)
+				if names[i] == name {
+					names[i] = names[at] // (keep the names distinct)
 				}
 			}
-			names[0] = hostile
+			names[at] = name
+		}
+		switch p % 6 {
+		case 1: // a name that a careless page would let close its script element
+			force(0, []string{"a</script><b>x", "x<!--<script>"}[(p/6)%2])
+		case 4: // two attacks of which one's name is the beginning of the other's
+			if na < 2 {
+				na, atks = 2, make([]plotAtk, 2)
+			}
+			pair := [][2]string{{"load", "loadBalanced"}, {"", "Canary"}, {"GET", "GETALL"}, {"load", "load;x"}}[(p/6)%4]
+			for len(names) < 2 {
+				names = append(names, "z")
+			}
+			force(0, pair[0])
+			force(1, pair[1])
 		}
 		down := p%4 == 3 // a plot with downsampling: strictly increasing instants, no ties
 		n := []int{1, 2, 3, 7, 40, 300}[r.Intn(6)]
 		if p%10 == 0 {
 			n = 5000
+		}
+		if down && n < 7 {
+			n = []int{40, 300, 7}[(p/4)%3] // a series worth downsampling
 		}
 		var all []vegeta.Result
 		for a := range atks {
@@ -274,7 +290,9 @@ func TestDrv_C17(t *testing.T) {
 		}
 		threshold := 0
 		if down {
-			threshold = []int{1, 2, 3, 4, 10, n / 2, n - 1, n, n + 10}[r.Intn(9)]
+			// in turn (not by chance): thresholds just below the series length first (buckets of one and two points), then the rest
+			choices := []int{3 * n / 4, n - 1, 2 * n / 3, 10, n / 2, 3, n, 4, 1, 2, n + 10}
+			threshold = choices[(p/4+int(seed()))%len(choices)]
 		} else if r.Intn(3) == 0 {
 			threshold = 4000 + n // at or above every series length: unchanged
 		}
